@@ -8,6 +8,7 @@ For every type deriving both Serialize and Deserialize (E2 / syn facts):
   * `skip_serializing` / `skip` fields have a default."""
 import re
 
+from facts import callee
 from report import RuleResult
 
 
@@ -65,6 +66,35 @@ def run(F):
             else:
                 r.inst(iid, where, "violation")
                 r.fail("proxy|%s" % tname, where, "%s: %s — writing and re-reading a record is no longer symmetric" % (tname, msg))
+            # the conversion that *writes* (T -> proxy) must be a total, unconditional copy of the fields: whatever it leaves out
+            # or rewrites conditionally has to be reconstructed by the reader, and the two need not agree
+            if ok and into:
+                px = into["v"].split("::")[-1]
+                tn = it["name"]
+                conv = [b for b in F.bodies if b.path.endswith("::%s as std::convert::From<%s>>::from" % (px, "::".join(b.path.split(" as ")[0].split("::")[:-1]).split("<")[-1] + "::" + tn))
+                        or (("::%s as std::convert::From<" % px) in b.path and b.path.endswith("::%s>>::from" % tn))]
+                iid2 = "proxy-write|%s" % tname
+                if not conv:
+                    if F.config == "full":
+                        r.inst(iid2, where, "violation")
+                        r.fail(iid2 + "|missing", where, "%s: conversion into the serde proxy %s not found" % (tname, px))
+                else:
+                    cb = conv[0]
+                    bad = None
+                    for blk in cb.blocks:
+                        if blk.get("cleanup"):
+                            continue
+                        t = blk["term"]
+                        if t["k"] == "switch":
+                            bad = ("a branch", t.get("span", cb.file_line()))
+                        elif t["k"] == "call" and callee(t)[2] not in ("clone", "into", "from", "to_owned", "to_string", "to_vec", "into_iter", "collect"):
+                            bad = ("a call of `%s`" % callee(t)[2], t["span"])
+                    if bad is None:
+                        r.inst(iid2, cb.file_line(), "ok")
+                    else:
+                        r.inst(iid2, bad[1], "violation")
+                        r.fail(iid2, bad[1], "%s: the conversion into its serde proxy %s contains %s: what is written is no longer an unconditional copy of "
+                               "the record's fields, so the reader has to reconstruct information — serialising and re-reading need not reproduce the record" % (tname, px, bad[0]))
         if not both:
             continue
         field_lists = []
